@@ -14,6 +14,8 @@ for d in sorted(os.listdir(sd)):
     m = json.load(open(mp))
     det = m.get("detected_by") or []
     det_s = "; ".join(f"{x['check']}: {x['how']}" for x in det) if det else "**not detected** " + m.get("why_missed", "")
+    if m.get("obsolete"):
+        det_s = "*obsolete*: " + m["obsolete"]
     rows.append(f"| `{d}` | {m.get('property','?')} | {m.get('summary','').replace('|','/')} | {m.get('needs','').replace('|','/')[:220]} | {det_s} |")
 table = ["| id | property | change | needs, to manifest | reported by |", "|----|----------|--------|--------------------|-------------|"] + rows
 p = os.path.join(HERE, "DESIGN.md")
